@@ -125,6 +125,65 @@ func thorough(id string, f checkFunc, p *Prog, r *Report, repo, verif string, ex
 	}
 	extra["calibration"] = map[string]any{"variants": len(vs), "detected": detected, "skipped": skipped, "outcomes": cal}
 	r.count("calibration_variants_detected", detected)
+
+	// --- the other direction: behaviour-preserving refactorings must stay silent.
+	// Only meaningful when the current tree itself is clean for this property.
+	for _, o := range r.obs {
+		if o.Status == "violated" {
+			extra["silence_calibration"] = "skipped: the current tree has violations of its own"
+			return
+		}
+	}
+	bpDir := filepath.Join(verif, "tools", "bp_variants")
+	bps, _ := filepath.Glob(filepath.Join(bpDir, "*.diff"))
+	sort.Strings(bps)
+	known := map[string]bool{}
+	if kf, err := loadKnown(filepath.Join(verif, "known_findings.json")); err == nil {
+		for _, k := range kf.Findings {
+			if k.Property == id && k.Status == "known" {
+				known[k.Key] = true
+			}
+		}
+	}
+	res2 := make([]string, len(bps))
+	var wg2 sync.WaitGroup
+	sem2 := make(chan struct{}, 8)
+	for i, bp := range bps {
+		wg2.Add(1)
+		go func(i int, bp string) {
+			defer wg2.Done()
+			sem2 <- struct{}{}
+			defer func() { <-sem2 }()
+			out := calibrateOne(exe, id, repo, verif, bp)
+			switch {
+			case out == "detected":
+				res2[i] = "ALARM"
+			case strings.HasPrefix(out, "MISSED (exit 0)"):
+				res2[i] = "silent"
+			case strings.HasPrefix(out, "skipped"):
+				res2[i] = out
+			default:
+				res2[i] = "checker error: " + out
+			}
+		}(i, bp)
+	}
+	wg2.Wait()
+	silent, alarms, skipped2 := 0, 0, 0
+	bad := map[string]string{}
+	for i, bp := range bps {
+		switch {
+		case res2[i] == "silent":
+			silent++
+		case strings.HasPrefix(res2[i], "skipped"):
+			skipped2++
+		default:
+			alarms++
+			bad[filepath.Base(bp)] = res2[i]
+			r.fail("calibration: the behaviour-preserving variant %s is not silent (%s)", filepath.Base(bp), res2[i])
+		}
+	}
+	extra["silence_calibration"] = map[string]any{"variants": len(bps), "silent": silent, "skipped": skipped2, "not_silent": bad}
+	r.count("calibration_refactorings_silent", silent)
 }
 
 func calibrateOne(exe, id, repo, verif, patch string) string {
